@@ -61,8 +61,9 @@ def run_impl(line):
         fs, gfs = chain(f, gi); gs, fgs = chain(gi, f)
         return ';'.join((fs, gfs, gs, fgs))
     def go():
-        if op == 'aes.enc': return hx(A.AES(unhx(a[0])).enc(unhx(a[1])))
-        if op == 'aes.dec': return hx(A.AES(unhx(a[0])).dec(unhx(a[1])))
+        if op in ('aes.enc', 'aes.dec'):
+            from props.parts import one_object as OO   # the object has already been used for the opposite operation
+            return hx(OO.used(A.AES(unhx(a[0])), lambda: unhx(a[1]), op[4:]))
         if op == 'aes.gmul': return str(int(A.gmul(int(a[0]), int(a[1]))))
         if op == 'aes.gmulc':
             x, y = int(a[0]), int(a[1])
